@@ -438,6 +438,18 @@ impl Transport for LocalTransport {
                     bytes_written
                 );
 
+                // The destination inode is rewritten in place and keeps whatever extended
+                // attributes it had: strip them, as copy_file does, so that the caller
+                // re-applies exactly the source's (or none without -X)
+                #[cfg(unix)]
+                {
+                    if let Ok(xattr_list) = xattr::list(&dest) {
+                        for attr_name in xattr_list {
+                            let _ = xattr::remove(&dest, &attr_name);
+                        }
+                    }
+                }
+
                 // Preserve modification time (same as the full-copy path)
                 if let Ok(mtime) = source_meta.modified() {
                     filetime::set_file_mtime(
@@ -485,6 +497,18 @@ impl Transport for LocalTransport {
                             path: source.clone(),
                             source: e,
                         })?;
+
+                        // The destination inode is rewritten in place and keeps whatever extended
+                        // attributes it had: strip them, as copy_file does, so that the caller
+                        // re-applies exactly the source's (or none without -X)
+                        #[cfg(unix)]
+                        {
+                            if let Ok(xattr_list) = xattr::list(&dest) {
+                                for attr_name in xattr_list {
+                                    let _ = xattr::remove(&dest, &attr_name);
+                                }
+                            }
+                        }
 
                         // Preserve modification time (same as the full-copy path)
                         if let Ok(mtime) = source_meta.modified() {
